@@ -877,18 +877,22 @@ class ExcelFormula:
                 trace = ''  # pragma: no cover
             error_messages.append((trace, msg))
 
-        def error_logger(level, python_code, msg=None, exc=None):
+        def error_logger(level, python_code, msg=None, exc=None, depth=0):
             """ Log a traceback, a msg, and reraise if asked
 
             :param level: level for the logger "error", "warning", "debug"...
             :param python_code: Code which caused the error
             :param msg: Additional information for logging
             :param exc: An exception to reraise, if desired
+            :param depth: number of messages pending when the failing
+                evaluation started (they belong to the enclosing evaluations)
             :return: the constructed error message if not reraising
             """
             if exc:
+                # messages this evaluation captured before it raised are
+                # superseded by the exception, the enclosing ones are kept
+                del error_messages[depth:]
                 capture_error_state(exc, msg)
-                assert 1 == len(error_messages)
             trace, msg = error_messages.pop()
             fmt_str = "{0}Eval: {1}" if msg is None else "{0}Eval: {1}\n{2}"
             error_msg = fmt_str.format(trace, python_code, msg)
@@ -937,6 +941,9 @@ class ExcelFormula:
                         msg_fmt.format(f.upper()) +
                         func_status_msg(f)[1] for f in sorted(missing))
 
+            # the message list is shared by the nested evaluations of this
+            # context: only what is above `depth` belongs to this evaluation
+            depth = len(error_messages)
             try:
                 with in_array_formula_context(cse_array_address):
                     ret_val = in_array_formula_context.fit_to_range(
@@ -944,19 +951,22 @@ class ExcelFormula:
 
             except NameError:
                 error_logger('error', excel_formula.python_code,
-                             msg=excel_formula.msg, exc=UnknownFunction)
+                             msg=excel_formula.msg, exc=UnknownFunction,
+                             depth=depth)
 
             except RecursionError as exc:
+                del error_messages[depth:]
                 raise RecursionError('Do you need to use cycles=True ?') from exc
 
             except Exception:
                 address = f"{excel_formula.cell.address}: " if excel_formula.cell else ""
                 error_logger('error', f"{address}{excel_formula.python_code}",
-                             exc=FormulaEvalError)
+                             exc=FormulaEvalError, depth=depth)
 
-            if error_messages:
+            if len(error_messages) > depth:
                 level = 'warning' if ret_val in ERROR_CODES else 'info'
                 error_logger(level, excel_formula.python_code)
+                del error_messages[depth:]
 
             return ret_val if ret_val not in (None, EMPTY) else 0
 
